@@ -101,10 +101,12 @@ struct Case {
     inter: Vec<usize>,
     /// message index = position x stride (the detector schedules its regular table refresh by index distance)
     stride: u32,
+    /// boot time of the first ECU's first boot (the recorder's clock); usually BASE, 0 = a clock that starts at the epoch
+    base: u64,
 }
 
 fn case_json(c: &Case) -> Value {
-    json!({"family": "boots", "ecus": c.ecus.iter().map(|bs| bs.iter().map(|b| json!({"ts_us": PROFILES[b.profile], "delay_us": DELAYS[b.delay], "off_us": OFFS[b.off], "perm": b.perm, "p": [b.profile, b.delay, b.off, b.perm]})).collect::<Vec<_>>()).collect::<Vec<_>>(), "interleaving": c.inter, "index_stride": c.stride})
+    json!({"family": "boots", "ecus": c.ecus.iter().map(|bs| bs.iter().map(|b| json!({"ts_us": PROFILES[b.profile], "delay_us": DELAYS[b.delay], "off_us": OFFS[b.off], "perm": b.perm, "p": [b.profile, b.delay, b.off, b.perm]})).collect::<Vec<_>>()).collect::<Vec<_>>(), "interleaving": c.inter, "index_stride": c.stride, "base_us": c.base})
 }
 
 fn run_case(ctx: &mut Ctx, c: &Case) {
@@ -113,7 +115,7 @@ fn run_case(ctx: &mut Ctx, c: &Case) {
     let mut per: Vec<(Vec<(u64, u32, usize)>, Vec<Truth>)> = vec![];
     let mut delay_drop = false;
     for (e, boots) in c.ecus.iter().enumerate() {
-        match ecu_trace(e as u8, boots, BASE + e as u64 * 7 * S, true) {
+        match ecu_trace(e as u8, boots, c.base + e as u64 * 7 * S, true) {
             None => {
                 ctx.landmark("premise_not_met(reception overlap)");
                 return;
@@ -237,7 +239,7 @@ pub fn history_streams(thorough: bool, f: &mut dyn FnMut(&[([u8; 4], u64, u32)],
     for nb in 1..=2usize {
         for bs in ecu_variants(nb, &all_p, &[0, 1, 2], &[0, 1, 2, 3], true) {
             let n: usize = bs.iter().map(|b| PROFILES[b.profile].len()).sum();
-            if !emit(&Case { ecus: vec![bs], inter: vec![0; n], stride: 1 }, f) {
+            if !emit(&Case { ecus: vec![bs], inter: vec![0; n], stride: 1, base: BASE }, f) {
                 return;
             }
         }
@@ -257,7 +259,7 @@ pub fn history_streams(thorough: bool, f: &mut dyn FnMut(&[([u8; 4], u64, u32)],
                 }
                 let mut go = true;
                 enumr::interleavings(&[la, lb], &mut |il| {
-                    go = emit(&Case { ecus: vec![a.clone(), b.clone()], inter: il.to_vec(), stride: 1 }, f);
+                    go = emit(&Case { ecus: vec![a.clone(), b.clone()], inter: il.to_vec(), stride: 1, base: BASE }, f);
                     go
                 });
                 if !go {
@@ -305,7 +307,7 @@ impl Prop for C08 {
             assumptions: vec!["timestamps, delays and off-times from the stated grids".into()],
             budget_s: (90, 1200),
             workers: 0,
-            required_landmarks: vec!["two_ecus", "multi_boot", "permuted_within_boot", "resume_flagged(allowed)"],
+            required_landmarks: vec!["two_ecus", "multi_boot", "permuted_within_boot", "resume_flagged(allowed)", "epoch_zero"],
         }
     }
     fn run(&self, ctx: &mut Ctx) {
@@ -322,7 +324,7 @@ impl Prop for C08 {
             for bs in vars {
                 if ctx.mine() {
                     let n: usize = bs.iter().map(|b| PROFILES[b.profile].len()).sum();
-                    run_case(ctx, &Case { ecus: vec![bs], inter: vec![0; n], stride: 1 });
+                    run_case(ctx, &Case { ecus: vec![bs], inter: vec![0; n], stride: 1, base: BASE });
                     if ctx.sum.evaluations % 4096 == 0 && ctx.out_of_time() {
                         done = false;
                         break;
@@ -342,7 +344,7 @@ impl Prop for C08 {
             for bs in vars1 {
                 if ctx.mine() {
                     let n: usize = bs.iter().map(|b| PROFILES[b.profile].len()).sum();
-                    run_case(ctx, &Case { ecus: vec![bs], inter: vec![0; n], stride: 100_001 });
+                    run_case(ctx, &Case { ecus: vec![bs], inter: vec![0; n], stride: 100_001, base: BASE });
                 }
             }
             let va = ecu_variants(2, &[0, 2, 5], &[0, 2], &[0, 3], true);
@@ -356,7 +358,33 @@ impl Prop for C08 {
                     }
                     enumr::interleavings(&[la, lb], &mut |il| {
                         if ctx.mine() {
-                            run_case(ctx, &Case { ecus: vec![a.clone(), b.clone()], inter: il.to_vec(), stride: 100_001 });
+                            run_case(ctx, &Case { ecus: vec![a.clone(), b.clone()], inter: il.to_vec(), stride: 100_001, base: BASE });
+                        }
+                        true
+                    });
+                }
+            }
+            ctx.end_family(true);
+        }
+        // (a3) a recorder clock that starts at the epoch: boot time 0 (reception time = timestamp + delay)
+        {
+            ctx.begin_family("epoch_zero", "one ECU, boots=1..2, all profiles/delays/offs/perms, first boot at time 0 + two ECUs boots=(1,1) reduced x all interleavings");
+            for nb in 1..=2usize {
+                for bs in ecu_variants(nb, &all_p, &all_d, &all_o, true) {
+                    if ctx.mine() {
+                        let n: usize = bs.iter().map(|b| PROFILES[b.profile].len()).sum();
+                        ctx.landmark("epoch_zero");
+                        run_case(ctx, &Case { ecus: vec![bs], inter: vec![0; n], stride: 1, base: 0 });
+                    }
+                }
+            }
+            let v1 = ecu_variants(1, &[0, 2, 5], &[0, 2], &[0], true);
+            for a in &v1 {
+                for b in &v1 {
+                    let (la, lb) = (PROFILES[a[0].profile].len(), PROFILES[b[0].profile].len());
+                    enumr::interleavings(&[la, lb], &mut |il| {
+                        if ctx.mine() {
+                            run_case(ctx, &Case { ecus: vec![a.clone(), b.clone()], inter: il.to_vec(), stride: 1, base: 0 });
                         }
                         true
                     });
@@ -383,7 +411,7 @@ impl Prop for C08 {
                     }
                     let cont = enumr::interleavings(&[la, lb], &mut |il| {
                         if ctx.mine() {
-                            run_case(ctx, &Case { ecus: vec![a.clone(), b.clone()], inter: il.to_vec(), stride: 1 });
+                            run_case(ctx, &Case { ecus: vec![a.clone(), b.clone()], inter: il.to_vec(), stride: 1, base: BASE });
                         }
                         true
                     });
@@ -411,7 +439,7 @@ impl Prop for C08 {
                     let l: Vec<usize> = [a, b, c3].iter().map(|v| PROFILES[v[0].profile].len()).collect();
                     let cont = enumr::interleavings(&l, &mut |il| {
                         if ctx.mine() {
-                            run_case(ctx, &Case { ecus: vec![a.clone(), b.clone(), c3.clone()], inter: il.to_vec(), stride: 1 });
+                            run_case(ctx, &Case { ecus: vec![a.clone(), b.clone(), c3.clone()], inter: il.to_vec(), stride: 1, base: BASE });
                         }
                         true
                     });
@@ -443,6 +471,7 @@ impl Prop for C08 {
             .collect();
         let inter: Vec<usize> = case["interleaving"].as_array().unwrap().iter().map(|x| x.as_u64().unwrap() as usize).collect();
         let stride = case["index_stride"].as_u64().unwrap_or(1) as u32;
-        run_case(ctx, &Case { ecus, inter, stride });
+        let base = case["base_us"].as_u64().unwrap_or(BASE);
+        run_case(ctx, &Case { ecus, inter, stride, base });
     }
 }
